@@ -23,6 +23,7 @@ pub mod syscalls {
 //@use syscalls.linkat c14
 //@use syscalls.symlinkat c14
 //@use syscalls.renameat2 c14
+//@use-missing syscalls.openat syscalls.openat_follow syscalls.readlinkat syscalls.mkdirat syscalls.mknodat syscalls.unlinkat syscalls.linkat syscalls.symlinkat syscalls.renameat syscalls.renameat2 syscalls.openat2
 }
 use syscalls::Error as SyscallError;
 //@item src/error.rs :: enum ErrorKind | sub.ErrorKind
